@@ -197,6 +197,9 @@ type Verifier struct {
 	lastExec  *Exec
 	schedMode bool
 	mustFail  map[string]bool
+	bounded   map[string]interface{}
+	specCheck map[string]interface{}
+	sweep     map[string]interface{}
 }
 
 func modeOf(name string) Mode {
